@@ -702,6 +702,7 @@ def repeat_iter(ctx):
             capped = "Ord::min(a1.max, %s)" % REM
             _rec(d, "greedy-bound-finite", bnd in (capped, "Ord::max(%s, a1.min)" % capped, "Ord::max(a1.min, %s)" % capped), "the iterator stack must be bounded by max(min, min(max, remaining input + 1)): anything larger lets iterations that match nothing pile up without end; found %s" % bnd[:120], loc)
             _rec(d, "greedy-bound-at-least-min", bnd in ("Ord::max(%s, a1.min)" % capped, "Ord::max(a1.min, %s)" % capped), "the bound on the number of iterations can be smaller than min (%s): a body that matches nothing at some position can then not be repeated min times, e.g. '(?:a|^){2}' on '' (and the empty-string guard of replace_all/tokenize, which asks the matcher, lets the pattern through)" % bnd[:100], loc)
+            _rec(d, "greedy-bound-proportional-to-input", bnd == capped, "the bound on the number of iterations grows with the quantifier's minimum (%s): over a body that matches nothing at the position the repeat performs min zero-width iterations one by one - '(?:a|^){4000000000}' on 'a' runs for hours and allocates one iterator per iteration" % bnd[:100], loc)
             rng = [g for g in gs if g.startswith("variant(next(Range::Range{")]
             _rec(d, "priming-bounded", all(g.startswith("variant(next(Range::Range{start: 0, end: %s}))" % bnd) for g in rng), "the priming loop must run at most `bound` times", loc)
         elif "!a1.greedy" in gs:
@@ -738,7 +739,11 @@ def repeat_iter(ctx):
             g = guard_strings(gb, bb, ctx.senv(gb))
             if strip_ver(show(ctx.senv(gb).operand(t["args"][0]))) == "a1.iterators":
                 _rec(d, "greedy|pop-after-exhaustion", any(x.endswith("=None") and "next(" in x for x in g), "an iterator is popped from the greedy stack before it is exhausted", gb.loc(bb))
-    return _emit(d)
+    out = _emit(d)
+    for i_ in out:
+        if i_.key == "greedy-bound-proportional-to-input":
+            i_.props = ["C06"]
+    return out
 
 
 # ------------------------------------------------------------------ loop variants (A10)
